@@ -12,6 +12,9 @@ Pow2(n) == 2^n                       \* n >= 0
 
 \* floor(a / b) for b > 0 and either sign of a (TLA+'s \div is floor division)
 FloorDiv(a, b) == a \div b
+\* floor(a / 2^e) for e >= 0 and |a| < 2^30, without forming 2^e when it would
+\* exceed TLC's integers
+FloorDivPow2(a, e) == IF e >= 30 THEN (IF a < 0 THEN -1 ELSE 0) ELSE a \div (2^e)
 \* ceil(a / b) for b > 0
 CeilDiv(a, b) == -((-a) \div b)
 \* Go's '/' on integers: rounds toward zero (the classic wrong choice below ground)
@@ -27,9 +30,9 @@ SetMax(S) == CHOOSE m \in S : \A e \in S : e <= m
 SetMin(S) == CHOOSE m \in S : \A e \in S : m <= e
 
 \* floor(i * 2^s) for either sign of i and s: the signed arithmetic shift
-ArithShift(i, s) == IF s >= 0 THEN i * Pow2(s) ELSE FloorDiv(i, Pow2(-s))
+ArithShift(i, s) == IF s >= 0 THEN i * Pow2(s) ELSE FloorDivPow2(i, -s)
 \* ceil(i * 2^s)
-ArithShiftCeil(i, s) == IF s >= 0 THEN i * Pow2(s) ELSE CeilDiv(i, Pow2(-s))
+ArithShiftCeil(i, s) == IF s >= 0 THEN i * Pow2(s) ELSE -FloorDivPow2(-i, -s)
 
 \* bit k (k = 0 least significant) of a non-negative integer
 Bit(n, k) == (n \div Pow2(k)) % 2
